@@ -253,12 +253,52 @@ def check_surface(case):
         raise Violation(f"C03/surface/returns-plain-value", f"{case['entry']}: {type(made).__name__}")
 
 
+# ---- ExitStack: sync and async exits / managers / callbacks are interchangeable ------------
+
+SYNC_TO_ASYNC = {"scm": "acm", "push-sync": "push-async", "callback-sync": "callback-async"}
+
+
+@st.composite
+def stack_cases(draw):
+    from . import c14
+
+    space = [e for e in c14.entry_space() if e[0] in SYNC_TO_ASYNC]
+    entries = draw(st.lists(st.sampled_from(space), min_size=1, max_size=4))
+    flips = [draw(st.lists(st.booleans(), min_size=len(entries), max_size=len(entries))) for _ in range(4)]
+    return {"entries": [list(e) for e in entries], "block": draw(st.sampled_from(["normal", "raises"])),
+            "flips": flips}
+
+
+def check_stack(case):
+    from . import c14
+
+    def outcome_of(entries):
+        log = []
+        result = expect_return(run(Ctx("a"), c14.run_stack({"entries": entries, "block": case["block"]}, log)),
+                               "C03/exitstack")
+        return result, log
+
+    base = outcome_of(case["entries"])
+    nontrivial = []
+    for flip in case["flips"]:
+        entries = [[SYNC_TO_ASYNC[k] if f else k, b] for (k, b), f in zip(case["entries"], flip)]
+        got = outcome_of(entries)
+        if got != base:
+            raise Violation("C03/exitstack/flavour-changes-outcome",
+                            f"entries={entries} block={case['block']}: {got} vs all-sync {base}")
+        if any(flip) and not all(flip):
+            nontrivial.append("".join("a" if f else "s" for f in flip))
+    return {"evaluations": len(case["flips"]), "nontrivial": nontrivial, "labels": {}}
+
+
 def shards(tier):
     out = [
         Shard(name, check, strategy=cases(name, tier), n=120, nontrivial=lambda c: False,
               thorough_mult=20)
         for name in ALL
     ]
+    out.append(Shard("exitstack-flavours", check_stack, strategy=stack_cases(), n=400,
+                     nontrivial=lambda c: False, thorough_mult=20))
     out.append(Shard("surface", check_surface, cases=lambda: [{"entry": k} for k in _ensure_surface()],
                      nontrivial=lambda c: True, exhaustive=True))
     return out
